@@ -1,6 +1,6 @@
 (* C12 — partition consumer: the invariant holds in every reachable state; consequences. *)
 From Coq Require Import List Arith Bool Lia.
-From SV Require Import C12.Lts C12.LtsProofs C12.Tac C12.PCons C12.PConsProofs C12.PConsInv1 C12.PConsInv2.
+From SV Require Import C12.Lts C12.LtsProofs C12.Tac C12.PCons C12.PConsProofs C12.PConsInv_01 C12.PConsInv_02.
 Import ListNotations.
 
 Module PCS.
